@@ -59,6 +59,15 @@ static void vin_load(void)
     }
 }
 static inline u32 in_u32(void) { vin_load(); u32 v = vin_n < vin_have ? vin[vin_n] : 0; vin_n++; return v; }
+/* run-time shape parameters of native builds (so that one native binary serves a whole corpus): V_<key>=<value> */
+static const char* v_env(const char* key)
+{
+    extern char** environ;
+    size_t kl = strlen(key);
+    for (char** e = environ; e && *e; ++e)
+        if ((*e)[0] == 'V' && (*e)[1] == '_' && strncmp(*e + 2, key, kl) == 0 && (*e)[2 + kl] == '=') return *e + 3 + kl;
+    return 0;
+}
 #define ASSUME(c) do { if (!(c)) { printf("ASSUME-FALSE %s\n", #c); exit(11); } } while (0)
 #define CHECK(c, msg) do { if (!(c)) { printf("CHECK-FAIL %s\n", msg); v_fail = 1; } } while (0)
 #define WITNESS_AT(c, name) do { if (c) printf("WITNESS %s\n", name); } while (0)
